@@ -2,3 +2,4 @@ SPECIFICATION Spec
 INVARIANTS DeliveredAtMostOnce CleanupAtMostOnce CleanupOnlyAfterOutstandingNext
 ACTION_CONSTRAINT EdgeLog
 CHECK_DEADLOCK FALSE
+CONSTANT Mut = "none"
